@@ -297,6 +297,69 @@ func callTableTargets() []target {
 	return ts
 }
 
+// callSites: for every registered callable the list of single calls (q V) and (q V W), V and W over the call-table
+// values plus a string that is malformed in every syntax a library parses (regexp, JSON, time layout, base64, number).
+type callSite struct {
+	ID    string
+	Calls []string
+}
+
+func callSites() []callSite {
+	vals := []string{"()", `(list "a" "b")`, `"s"`, `"(["`, "1", "'sym", `(vector "a" 1)`, `(sorted-map "k" 1)`, `(to-bytes "ab")`}
+	var out []callSite
+	for _, t := range callTableTargets() {
+		q := strings.TrimPrefix(t.ID, "calltable/")
+		cs := callSite{ID: "callsite/" + q}
+		for _, a := range vals {
+			cs.Calls = append(cs.Calls, fmt.Sprintf("(%s %s)", q, a))
+			for _, b := range vals {
+				cs.Calls = append(cs.Calls, fmt.Sprintf("(%s %s %s)", q, a, b))
+			}
+		}
+		out = append(out, cs)
+	}
+	return out
+}
+
+// siteTranscript: what the HOST sees for one call loaded on its own: value or condition, message, source location
+// and rendered stack trace.
+func siteTranscript(env *el.Env, file, src string) string {
+	v := env.LoadString(file, src)
+	if v.Type != lisp.LError {
+		return "VAL<" + v.String() + ">"
+	}
+	pos := "<no position>"
+	if loc, ok := v.Source(); ok {
+		pos = fmt.Sprintf("%s:%d:%d", loc.File, loc.Line, loc.Col)
+	}
+	var tb bytes.Buffer
+	_, _ = (*lisp.ErrorVal)(v).WriteTrace(&tb)
+	return fmt.Sprintf("ERR<%s: %s> at %s trace=%s", v.Str, el.ErrText(v), pos, tb.String())
+}
+
+// runCallSites: every call of every callable, each loaded on its own in one fresh runtime per callable.  With
+// relocated=true every call is FIRST made elsewhere: in another runtime, from another file, at another position and
+// from inside a function, which is "preceding unrelated activity" that differs from the target only in where it
+// happens.
+func runCallSites(relocated bool) map[string]string {
+	out := map[string]string{}
+	for _, cs := range callSites() {
+		if relocated {
+			other := el.MustEnv(el.Opts{Stdlib: true})
+			for _, c := range cs.Calls {
+				other.LoadString("elsewhere.lisp", "\n\n   (defun other-caller () "+c+")\n (other-caller)")
+			}
+		}
+		env := el.MustEnv(el.Opts{Stdlib: true})
+		var sb strings.Builder
+		for _, c := range cs.Calls {
+			sb.WriteString(c + " => " + siteTranscript(env, "target", c) + "\n")
+		}
+		out[cs.ID] = sb.String()
+	}
+	return out
+}
+
 func allTargets(thorough bool) []target {
 	ts := handTargets()
 	et := errorTableTargets()
@@ -367,6 +430,12 @@ func childMain(mode string) {
 				out.Transcripts[fmt.Sprintf("%s#%d", t.ID, n)] = transcript(t.Src, nil)
 			}
 		}
+		b, _ := json.Marshal(out)
+		os.Stdout.Write(b)
+		return
+	}
+	if mode == "sites" || mode == "sites-relocated" {
+		out.Transcripts = runCallSites(mode == "sites-relocated")
 		b, _ := json.Marshal(out)
 		os.Stdout.Write(b)
 		return
@@ -457,7 +526,7 @@ func run(r *core.Run) {
 	r.Bound("activities", len(acts))
 	r.Bound("history_length", 2)
 	r.Rule("targets: hand-written programs that print, enumerate and compare sorted maps of 1..12 keys in 3 insertion orders through 9 sinks, closures with 1..8 captured bindings, errors with stack traces, gensym, packages, help listings, schema validators, JSON; plus one target per exported stdlib/core callable holding its error messages for 13 argument values in 2 positions. " +
-		"(1) every target after every sequence of <=2 activities (8 kinds) run in other runtimes of this process vs a fresh process; (2) target pairs under every schedule up to the preemption bound vs solo; (3) two fresh processes with different heap layouts, and a pointer-pattern scan of every transcript; (4) R repeated in-process runs (statistical: samples Go's map-iteration seed); (5) for EVERY exported callable the table of calls (q V) and (q V W) over 9 values (empty / homogeneous / heterogeneous lists, string, int, symbol, vector, map, bytes) run three times in a child process with one P and the collector off, where process-wide free lists hand residue back deterministically: later runs vs the first. Non-trivial = distinct target")
+		"(1) every target after every sequence of <=2 activities (8 kinds) run in other runtimes of this process vs a fresh process; (2) target pairs under every schedule up to the preemption bound vs solo; (3) two fresh processes with different heap layouts, and a pointer-pattern scan of every transcript; (4) R repeated in-process runs (statistical: samples Go's map-iteration seed); (5) for EVERY exported callable the table of calls (q V) and (q V W) over 9 values (empty / homogeneous / heterogeneous lists, string, int, symbol, vector, map, bytes) run three times in a child process with one P and the collector off, where process-wide free lists hand residue back deterministically: later runs vs the first; (6) for EVERY exported callable each single call (q V) and (q V W) over 9 values (one a string malformed in every library syntax) loaded on its own, in a child process where the same call was first made from another file, position and function in another runtime, vs a child process where it was not: value / condition, message, location and trace as the host sees them. Non-trivial = distinct target")
 	r.Assume("transcript = printed value, stderr, error condition + message + rendered stack trace, step count")
 	r.Assume("oracle 4 (map iteration order) is sampling, not enumeration: the Go runtime's per-iteration random start cannot be owned without patching the runtime; a control (a bare Go map of 12 keys iterated R times must show >= 2 orders) is measured on every run")
 
@@ -507,6 +576,29 @@ func run(r *core.Run) {
 					"the transcript of the first run in the process", diffAt(first, again), "")
 				break
 			}
+		}
+	}
+	// (6) the same call made elsewhere first: location and trace of every single failing call, as the host sees them
+	sitesSolo, err1 := runChild("sites", r.Thorough())
+	sitesReloc, err2 := runChild("sites-relocated", r.Thorough())
+	if err1 != nil || err2 != nil {
+		r.Violate("c10", "harness:child", nil, "child process runs", fmt.Sprint(err1, err2), "")
+		return
+	}
+	css := callSites()
+	r.Bound("call_site_callables", len(css))
+	r.Bound("call_sites_per_callable", len(css[0].Calls))
+	r.AddStates(int64(len(css)))
+	for _, cs := range css {
+		r.Nontrivial(cs.ID)
+		a, b := sitesSolo[cs.ID], sitesReloc[cs.ID]
+		r.AddEvals(int64(3 * len(cs.Calls)))
+		r.AddTransitions(int64(len(cs.Calls)))
+		r.Outcome("callsite:" + ifs(strings.Contains(a, "ERR<"), "some-error", "all-values"))
+		if a != b {
+			t := target{cs.ID, strings.Join(cs.Calls, "\n")}
+			r.Violate("c10", classOf("relocated", t, a, b), kase{t, []string{"every call of the table made from another file, position and function in another runtime"}, "relocated"},
+				"what the host sees (value / condition, message, location, trace) for each call in a process where it was never made before", diffAt(a, b), "")
 		}
 	}
 	// (1) history independence: every sequence of <= 2 activities
@@ -683,6 +775,14 @@ func replay(v core.Violation) (bool, string) {
 		a, b, c := res[k.Target.ID+"#1"], res[k.Target.ID+"#2"], res[k.Target.ID+"#3"]
 		return a != b || a != c, fmt.Sprintf("target %s\nfirst run:  %s\nsecond run: %s\nthird run:  %s", k.Target.Src, trunc(a, 600), trunc(b, 600), trunc(c, 600))
 	}
+	if k.Kind == "relocated" {
+		a, err1 := runChild("sites", true)
+		b, err2 := runChild("sites-relocated", true)
+		if err1 != nil || err2 != nil {
+			return false, fmt.Sprint(err1, err2)
+		}
+		return a[k.Target.ID] != b[k.Target.ID], fmt.Sprintf("calls of %s\n%s", k.Target.ID, diffAt(a[k.Target.ID], b[k.Target.ID]))
+	}
 	base, err := runChild("plain", true)
 	if err != nil {
 		return false, err.Error()
@@ -701,4 +801,11 @@ func replay(v core.Violation) (bool, string) {
 		want = transcript(k.Target.Src, nil)
 	}
 	return got != want, fmt.Sprintf("target %s\nhistory %v\nfresh process: %s\nthis process:  %s", k.Target.Src, k.History, trunc(want, 600), trunc(got, 600))
+}
+
+func ifs(c bool, a, b string) string {
+	if c {
+		return a
+	}
+	return b
 }
